@@ -26,6 +26,8 @@ pub enum Msg {
     Change(u8, String),
     /// didChange with an empty contentChanges list: no reply expected
     ChangeEmpty(u8),
+    /// didChange carrying several full-text changes: the last one is the document
+    ChangeMulti(u8, Vec<String>),
     Tokens(u8),
     UnknownNotification,
     UnknownRequest,
@@ -388,6 +390,24 @@ fn session(c: &Case, ctx: &mut Ctx) -> Option<Violation> {
                     return Some(x);
                 }
             }
+            Msg::ChangeMulti(k, texts) => {
+                let u = uri(*k);
+                let Some(last) = texts.last() else { continue };
+                let changes: Vec<Value> = texts.iter().map(|t| json!({"text": t})).collect();
+                let msg = json!({"jsonrpc":"2.0","method":"textDocument/didChange","params":{"textDocument":{"uri":u,"version":4},"contentChanges":changes}});
+                ctx.count("fault.batched_changes");
+                if let Err(e) = s.send(&msg) {
+                    return died(&mut s, &format!("message {i}"), Some(last), e);
+                }
+                let note = match s.recv() {
+                    Ok(n) => n,
+                    Err(e) => return died(&mut s, &format!("message {i} (didChange x{})", texts.len()), Some(last), e),
+                };
+                docs.insert(*k, last.clone());
+                if let Some(x) = check_diagnostics(last, &note, &u, ctx) {
+                    return Some(x);
+                }
+            }
             Msg::ChangeEmpty(k) => {
                 let u = uri(*k);
                 let msg = json!({"jsonrpc":"2.0","method":"textDocument/didChange","params":{"textDocument":{"uri":u,"version":3},"contentChanges":[]}});
@@ -639,7 +659,20 @@ impl Prop for C20 {
                     }
                 }
                 11..=14 => Msg::Tokens(k),
-                15 => Msg::ChangeEmpty(k),
+                15 => {
+                    if rng.chance(1, 2) {
+                        Msg::ChangeEmpty(k)
+                    } else {
+                        let b = 2 + rng.usize(3);
+                        let mut v = vec![];
+                        for _ in 0..b {
+                            texts[ki] = edit_text(rng, &texts[ki]);
+                            v.push(texts[ki].clone());
+                        }
+                        opened[ki] = true;
+                        Msg::ChangeMulti(k, v)
+                    }
+                }
                 16 => Msg::UnknownNotification,
                 17 => Msg::UnknownRequest,
                 _ => {
@@ -662,7 +695,7 @@ impl Prop for C20 {
         // the in-process oracle runs the analyzer in this worker: deep nesting could abort it
         c.msgs.iter().any(|m| match m {
             Msg::Open(_, t) | Msg::Change(_, t) => t.lines().any(|l| l.len() > 600),
-            Msg::Pipeline(_, ts) => ts.iter().any(|t| t.lines().any(|l| l.len() > 600)),
+            Msg::Pipeline(_, ts) | Msg::ChangeMulti(_, ts) => ts.iter().any(|t| t.lines().any(|l| l.len() > 600)),
             _ => false,
         })
     }
